@@ -283,6 +283,7 @@ func marksForFile(path string, rng *rand.Rand, k, singlesCap int) marksFile {
 		}
 		if len(counts) == 4 {
 			mf.cases = append(mf.cases, marksCase{"ping", "pong", "judge:mono " + strings.Join(counts, " "), "mono", false})
+			mf.cases = append(mf.cases, marksCase{"ping", "pong", "judge:coh " + ls.String(), "coh", false})
 		}
 	}
 	return mf
